@@ -292,4 +292,52 @@ theorem maskedPairs_mask (H W : Nat) (mask : Nat → Bool) (wrap : Bool) :
   unfold maskedPairs at hp
   simpa using (List.mem_filter.mp hp).2
 
+/-! ### `max`/`min` of a list over ℝ (the `phase_grid.max() - phase_grid.min()` test) -/
+
+theorem foldl_max_ge (r : List ℝ) : ∀ init : ℝ,
+    init ≤ r.foldl Num.max init ∧ ∀ y ∈ r, y ≤ r.foldl Num.max init := by
+  induction r with
+  | nil => intro init; simp
+  | cons x r ih =>
+    intro init
+    simp only [List.foldl_cons, List.mem_cons]
+    obtain ⟨h1, h2⟩ := ih (Num.max init x)
+    rw [NumReal.max_eq] at h1 h2 ⊢
+    refine ⟨le_trans (le_max_left _ _) h1, ?_⟩
+    rintro y (rfl | hy)
+    · exact le_trans (le_max_right _ _) h1
+    · exact h2 y hy
+
+theorem foldl_min_le (r : List ℝ) : ∀ init : ℝ,
+    r.foldl Num.min init ≤ init ∧ ∀ y ∈ r, r.foldl Num.min init ≤ y := by
+  induction r with
+  | nil => intro init; simp
+  | cons x r ih =>
+    intro init
+    simp only [List.foldl_cons, List.mem_cons]
+    obtain ⟨h1, h2⟩ := ih (Num.min init x)
+    rw [NumReal.min_eq] at h1 h2 ⊢
+    refine ⟨le_trans h1 (min_le_left _ _), ?_⟩
+    rintro y (rfl | hy)
+    · exact le_trans h1 (min_le_right _ _)
+    · exact h2 y hy
+
+theorem le_maxList {xs : List ℝ} {x : ℝ} (h : x ∈ xs) : x ≤ maxList xs := by
+  cases xs with
+  | nil => simp at h
+  | cons a r =>
+    simp only [maxList, List.mem_cons] at h ⊢
+    rcases h with rfl | h
+    · exact (foldl_max_ge r _).1
+    · exact (foldl_max_ge r a).2 x h
+
+theorem minList_le {xs : List ℝ} {x : ℝ} (h : x ∈ xs) : minList xs ≤ x := by
+  cases xs with
+  | nil => simp at h
+  | cons a r =>
+    simp only [minList, List.mem_cons] at h ⊢
+    rcases h with rfl | h
+    · exact (foldl_min_le r _).1
+    · exact (foldl_min_le r a).2 x h
+
 end QuantemModel.Unwrap
